@@ -42,6 +42,9 @@ CLAIMED['C16'] = ('irsym', 'bounded symbolic execution of the clang IR over the 
 CLAIMED['C13'] = ('ir2c+irsym', 'bounded model checking (CBMC) of the clang IR of Box/Interval translated to C over all bit patterns, one inductive extendBy step from an arbitrary valid box; engine C (exact reals, z3) for nearest-point and tight-transform claims',
     'Box<Vec2/3/4> of int, short, float (generic template and specialisations) and Interval: membership, emptiness, infinity, symmetric intersects(box) tied to a shared witness point, one inductive extendBy(point/box) step from ANY reachable box (so histories of any length), size/center/majorAxis, specialisation == generic output-for-output - all by solver over every bit pattern (floats: all finite values). clip/closestPointInBox/closestPointOnBox nearest-point claims with a universally quantified competitor, and transform/affineTransform (4 overloads): exact tight bound of the eight corner images for affine matrices, empty->empty, infinite->infinite.',
     'Trusted: clang-14, vf/ll2c.py and vf/irsym.py (validated each run), CBMC, z3. extendBy histories rely on the stated representation invariant (canonical empty or min<=max), which each step is proved to re-establish. Projective transforms beyond empty/infinite handling and rounding in the Arvo accumulation are outside.', '3/C13')
+CLAIMED['C17'] = ('ir2c+irsym', 'bounded model checking (CBMC: kissat/cadical/minisat/z3) of the clang IR of ImathFun/ImathMath/ImathRoots/ImathColorAlgo translated to C; engine C (exact reals) for root and lerpfactor identities',
+    'floor/ceil/trunc for EVERY float below 2^31; finitef/finited and succ/pred dispatch for all bit patterns; abs/sign/cmp/cmpt/iszero/equal/clamp/equalWith*Error on int and float against their definitions; lerp/ulerp formulas; divs/mods/divp/modp with overflow assertions for |x|,|y| <= 2^8 (2^12 thorough); packed-colour round trip for all 2^32 colours; Vec3 vs Color4 hsv/rgb copies incl. alpha; solver delegation; solveLinear/solveQuadratic root counts and roots, lerp(lerpfactor) identity over the reals.',
+    'Trusted: clang-14, vf/ll2c.py, vf/irsym.py (validated each run), CBMC, z3. Structural obligations treat + - * / sqrt as uninterpreted (commutativity of + and * built in). nextafter is glibc (uninterpreted). Full 32-bit div/mod, cubic solver, hsv round trip and root accuracy are outside.', '3/C17')
 NOT_YET = 'check not built yet in this working session (planned in DESIGN.md section 3); no claim is made'
 NA = {}
 
